@@ -14,7 +14,8 @@ OPS = ['copy_ctor', 'move_ctor', 'copy_assign', 'move_assign', 'assign_int', 'as
 
 
 def units(tier):
-    return [Unit('any', 'wrappers.cpp', ['harness.c'], inert=INERT, tv=[('h_op', []), ('h_nested', [])], tv_iters=30000)]
+    return [Unit('any', 'wrappers.cpp', ['harness.c'], inert=INERT, tv=[('h_op', [])], tv_iters=30000),
+            Unit('anynest', 'wrappers_nested.cpp', ['harness_nested.c'], inert=INERT, tv=[('h_nested', [])], tv_iters=20000)]
 
 
 def obligations(tier):
@@ -23,7 +24,7 @@ def obligations(tier):
         ob = Ob('op/' + name, 'any', 'h_op', defines=['OPFIX=%d' % i], unwind=4, mem_unwind=40, bound='all start states, all fault schedules', min_witnesses=1, timeout=900, flags=['--memory-leak-check']); ob.harness_unwind = 12; obs.append(ob)
     for k in (2, 4, 0, 3):
         for how in (0, 1):
-            ob = Ob('nested_source/k%d_%s' % (k, 'move' if how == 0 else 'copy'), 'any', 'h_nested', defines=['KFIX=%d' % k, 'HOWFIX=%d' % how], unwind=4, mem_unwind=40, bound='child kind %d, all values' % k, min_witnesses=1, timeout=600, flags=['--memory-leak-check']); ob.harness_unwind = 12; obs.append(ob)
+            ob = Ob('nested_source/k%d_%s' % (k, 'move' if how == 0 else 'copy'), 'anynest', 'h_nested', defines=['KFIX=%d' % k, 'HOWFIX=%d' % how], unwind=4, mem_unwind=40, bound='child kind %d, all values' % k, min_witnesses=1, timeout=600, flags=['--memory-leak-check']); ob.harness_unwind = 12; obs.append(ob)
     if tier == 'thorough':
         ob = Ob('op/any@cadical', 'any', 'h_op', unwind=4, mem_unwind=40, backend='cadical', min_witnesses=2, timeout=3600, flags=['--memory-leak-check']); ob.harness_unwind = 12; obs.append(ob)
     return obs
